@@ -4,6 +4,7 @@ CONSTANTS
   N = 2
   MaxCalls = 3
   MaxRel = 4
-INVARIANTS TypeOK HoldersBound CancelWhenFull BlocksWhenFull ReleaseNeverBlocks ZeroCapacity
+  Kinds = {"cancelcause"}
+INVARIANTS TypeOK HoldersBound CancelWhenFull BlocksWhenFull ReleaseNeverBlocks ZeroCapacity ReturnsCtxErr
 PROPERTIES ErrOnlyWhenDone OkTakesSlot DoneReturns
 CHECK_DEADLOCK FALSE
